@@ -34,6 +34,7 @@ INT_TYPES = ['integer', 'nonPositiveInteger', 'negativeInteger', 'long', 'int', 
              'nonNegativeInteger', 'positiveInteger', 'unsignedLong', 'unsignedInt', 'unsignedShort',
              'unsignedByte']
 MODELLED = INT_TYPES + ['decimal', 'boolean', 'double', 'float', 'hexBinary', 'base64Binary']
+DUR_TYPES = ['duration', 'yearMonthDuration', 'dayTimeDuration']   # Lean recogniser + value (months, seconds)
 SKIPPED_TYPES = ['anyAtomicType', 'NOTATION', 'error']   # no constructor function / abstract (XPST0080, XPST0017)
 
 
@@ -351,9 +352,11 @@ def g_time(rng):
 
 def g_duration(rng, kind='duration'):
     sign = rng.choice(['', '', '-', '+'])
-    ym = rng.choice(['', '1Y', '2M', '1Y2M', '0Y', '13M'])
+    ym = rng.choice(['', '1Y', '2M', '1Y2M', '0Y', '13M', '2147483648M', '2147483649M', '178956971Y', '%dY%dM' % (rng.randint(0, 3000), rng.randint(0, 30))])
     d = rng.choice(['', '3D', '0D', '400D'])
-    t = rng.choice(['', 'T1H', 'T2M', 'T3S', 'T1H2M3S', 'T0.5S', 'T1.S', 'T', 'T36H', 'T.5S'])
+    t = rng.choice(['', 'T1H', 'T2M', 'T3S', 'T1H2M3S', 'T0.5S', 'T1.S', 'T', 'T36H', 'T.5S', 'T0.0000005S', 'T0.0000015S',
+                    'T0.0000025S', 'T59.9999995S', 'T1M0.1234567S', 'T9223372036854775808S', 'T9223372036854775807S',
+                    'T%dH%dM%d.%dS' % (rng.randint(0, 99), rng.randint(0, 99), rng.randint(0, 99), rng.randint(0, 10 ** 7))])
     if kind == 'yearMonthDuration':
         body = ym + (rng.choice(['', '', 'T1H', '1D']))
     elif kind == 'dayTimeDuration':
@@ -485,6 +488,8 @@ def lexical_cases(run: Run, impl: Impl, cases: list) -> None:
             for v in ('none', '10', '11'):
                 lines.append(f'op=ctor T={t} V={v} S={cps(s)}')
             lines.append(f'op=valid T={t} S={cps(s)}')
+        elif t in DUR_TYPES:
+            lines.append(f'op=dur K={t} S={cps(s)}')
     answers = iter(run.driver('C10', lines))
 
     def parse(ans):
@@ -503,10 +508,12 @@ def lexical_cases(run: Run, impl: Impl, cases: list) -> None:
             mvalid = parse(next(answers))
             fl = m['none'][3]
         else:
+            if t in DUR_TYPES:
+                dur_ans = parse(next(answers))
             fl = ('w' if any((c.isspace() and c not in ' \t\n\r') for c in s) else '') + \
                  ('v' if s != xsd_collapse(s) else '')
-        tags_w = ['F10w'] if 'w' in fl else []
-        tags_v = ['F10v'] if 'v' in fl else []
+        tags_w = []   # F10w, F10v are fixed on fix-c10-2: nothing is excused any more
+        tags_v = []
         if 'w' in fl:
             st.count('lex:flag:non-xsd-white')
         if 'v' in fl:
@@ -552,20 +559,44 @@ def lexical_cases(run: Run, impl: Impl, cases: list) -> None:
                 run.disagree(Disagreement(case, impl=iv, model=mvalid[0], what='is_valid-model', site=f'{t}.validate'))
             # spec sanity: spec of is_valid == spec ctor ok (same definition, printed twice)
         else:
+            if t in DUR_TYPES:
+                # Lean model (exact mirror incl. overflow limits and microsecond rounding) and XSD value
+                mm, _, sp, _ = dur_ans
+                if kind == 'ok':
+                    try:
+                        got_d = f'ok:{val.months}:{int(val.seconds * 10 ** 6)}'
+                    except Exception as e:
+                        got_d = 'ERR:OTHER:' + type(e).__name__
+                else:
+                    got_d = {'ERR:A': 'ERR:O'}.get(val, val)
+                st.count('lex:duration-model:' + (got_d if got_d.startswith('ERR') else 'ok'))
+                spec_cmp = sp
+                if sp.endswith(':~') and got_d.startswith('ok:'):     # > 6 fraction digits: months only
+                    spec_cmp = got_d if got_d.split(':')[1] == sp.split(':')[1] else sp
+                if got_d == 'ERR:O' and mm == 'ERR:O':
+                    spec_cmp = got_d      # implementation limit (2^31 months / 2^63 seconds): FODT0002, not a lexical matter
+                if got_d != spec_cmp:
+                    run.disagree(Disagreement(case, impl=got_d, model=mm, spec=spec_cmp, what='duration-vs-xsd-value',
+                                              site=f'datetime.py {t}.fromstring'))
+                elif got_d != mm:
+                    run.disagree(Disagreement(case, impl=got_d, model=mm, what='duration-model',
+                                              site=f'datetime.py {t}.fromstring'))
             if t in XSD_REF:
                 want = 'ok' if xsd_ref_ok(t, s) else 'ERR:V'
                 got = 'ok' if kind == 'ok' else val
+                if t in DUR_TYPES and val == 'ERR:A':
+                    got = 'ok'    # OverflowError (FODT0002): implementation limit on a literal of the lexical space
                 st.count(f'lex:xsd-reference-regex:{t}')
                 if got != want:
                     run.disagree(Disagreement(case, impl=got, spec=want, what='ctor-vs-xsd-reference-regex',
-                                              site=f'datatypes {t}', tags=tags_w + (['F10u'] if zero_foreign_components(t, s) else [])))
+                                              site=f'datatypes {t}', tags=[]))
             # is_valid agrees with the constructor (path against path)
             if t not in ('string', 'untypedAtomic') and not qname_ns_error:
                 iv = impl.is_valid(t, s)
                 expect = '1' if kind == 'ok' else '0'
                 st.count('lex:is_valid:' + iv)
                 if iv != expect:
-                    tags_p = ['F10p'] if (t in DATE_FAMILY and pattern_matches(t, s)) else []
+                    tags_p = []   # F10p fixed on fix-c10-2
                     run.disagree(Disagreement(case, impl=iv, spec=expect, what='is_valid-vs-constructor(path)',
                                               site=f'{t}.validate', tags=tags_v + tags_w + tags_p))
 
@@ -596,7 +627,7 @@ def lexical_cases(run: Run, impl: Impl, cases: list) -> None:
                             run.disagree(Disagreement(dict(case, canonical=cs), impl='ne:' + value_text(v2),
                                                       spec='eq:' + value_text(val), what='canonical-fixed-point',
                                                       site=f'{t}.__str__/__eq__/__hash__',
-                                                      tags=['F10y'] if bce_5digit_year(t, s) else []))
+                                                      tags=[]))
                         st.count('lex:canonical-reparsed')
             except Exception as e:
                 run.disagree(Disagreement(case, impl='ERR:OTHER:' + type(e).__name__, spec='ok', what='canonical-exception',
@@ -782,7 +813,7 @@ def canon_cases(run: Run, impl: Impl) -> None:
         st.case(['canon-dec', s]); st.count('canon:decimal')
         kind, r = impl.xpath('2', '1.1', 'string(xs:decimal($s))', {'s': s})
         got = r if kind == 'ok' else ('ERR:V' if r == 'ERR:FORG0001' else r)
-        tags = ['F10w'] if 'w' in fl else []
+        tags = []
         if got != sp:
             run.disagree(Disagreement({'decimal': s, 'cps': cps(s)}, impl=got, model=mm, spec=sp, what='canonical-decimal',
                                       site='base.py string_value(Decimal)', tags=tags))
@@ -1070,8 +1101,7 @@ def cast_cases(run: Run, impl: Impl) -> None:
             case = {'source_kind': kind, 'source': repr(val), 'request': fields, 'target': t, 'xsd': v}
             st.case(['cast', fields, t, v], nontrivial=True)
             st.count(f'cast:{kind}->{t if t not in INT_TYPES else "integer-family"}')
-            tags = (['F10w'] if 'w' in fl and kind in ('str', 'untyped') else []) + (['F10b'] if 'd' in fl else []) + \
-                   (['F10o'] if 'o' in fl else [])
+            tags = ['F10b'] if 'd' in fl else []
             if 'r' in fl:
                 run.disagree(Disagreement(case, impl=repr(val), model='pyRepr differs', what='pyRepr-model',
                                           site='CPython repr(float) vs EPV.LexLemmas.pyRepr'))
@@ -1100,6 +1130,8 @@ def cast_cases(run: Run, impl: Impl) -> None:
                         # finite / overflowed value: CPython's own conversion is the trusted reference
                         try:
                             src = xsd_collapse_py(val.value if kind == 'untyped' else val) if kind in ('str', 'untyped') else val
+                            if kind == 'int':
+                                src = str(int(val))     # F&O: through the string form (INF beyond the range)
                             ref = float_ref(t, src) if not (kind == 'dbl') else float_ref(t, repr(val))
                             if fhex(ref) != fhex(r):
                                 run.disagree(Disagreement(dict(case, path=name), impl=fhex(r), model=fhex(ref), spec=fhex(ref),
@@ -1263,7 +1295,6 @@ def translate_tables(run: Run) -> dict:
         BOUNDS_PY[n] = (c._lower_bound, (c._higher_bound - 1) if c._higher_bound is not None else None)
     ws = helpers.Patterns.whitespaces
     white = [cp for cp in range(0x110000) if ws.fullmatch(chr(cp))]
-    strip = [cp for cp in range(0x110000) if chr(cp).strip() == '']
 
     def pat(p):
         return getattr(p, '_pattern', None) if not isinstance(p, re.Pattern) else p.pattern
@@ -1286,8 +1317,6 @@ def translate_tables(run: Run) -> dict:
     out.append('')
     out.append('/-- code points matched by helpers.Patterns.whitespaces (one character, fullmatch) -/')
     out.append('def whitespaceCPs : List Nat := [' + ', '.join(map(str, white)) + ']')
-    out.append('/-- code points removed by str.strip() -/')
-    out.append('def stripCPs : List Nat := [' + ', '.join(map(str, strip)) + ']')
     out.append('def booleanValues : List String := [' + ', '.join(lean_str(x) for x in sorted(helpers.BOOLEAN_VALUES)) + ']')
     out.append('def infOrNan : List String := [' + ', '.join(lean_str(x) for x in sorted(helpers.NUMERIC_INF_OR_NAN)) + ']')
     out.append('/-- pattern source text of each builtin atomic type (LazyPattern._pattern) -/')
@@ -1299,7 +1328,7 @@ def translate_tables(run: Run) -> dict:
     gen.parent.mkdir(exist_ok=True)
     if not gen.exists() or gen.read_text() != text:
         gen.write_text(text)
-    return {'integer_types': len(rows), 'whitespace_codepoints': len(white), 'strip_codepoints': len(strip),
+    return {'integer_types': len(rows), 'whitespace_codepoints': len(white),
             'patterns': len(pats), 'rows': [(n, lo, hi) for n, lo, hi, _ in rows]}
 
 
